@@ -107,6 +107,18 @@ func c19Events(nlive int) []c19ev {
 			w.add(v.(*tensor.Dense), i)
 			return len(w.live) - 1, nil, true
 		})
+		un("SliceAll", func(w *c19world, t *tensor.Dense) (int, [][]int, bool) {
+			// the whole tensor as a view (no slice given): shares the storage, nothing else
+			if len(w.live) >= 4 || t.Dims() < 1 {
+				return -1, nil, false
+			}
+			v, err := t.Slice()
+			if err != nil {
+				return -1, nil, true
+			}
+			w.add(v.(*tensor.Dense), i)
+			return len(w.live) - 1, nil, true
+		})
 		un("SliceCol", func(w *c19world, t *tensor.Dense) (int, [][]int, bool) {
 			if len(w.live) >= 4 || t.Dims() < 2 {
 				return -1, nil, false
@@ -314,9 +326,7 @@ func c19Events(nlive int) []c19ev {
 					return -1, nil, false
 				}
 			}
-			if w.live[i].parent >= 0 {
-				return -1, nil, false
-			}
+			// a view is a *Dense that Slice borrowed from the pool: handing it back while its parent lives is ordinary use
 			tensor.ReturnTensor(t)
 			w.live = append(w.live[:i], w.live[i+1:]...)
 			for _, o := range w.live {
